@@ -41,6 +41,41 @@ def equal(case, impl, model):
     return impl == model
 
 
+def kernel_crosscheck(ctx, limit=80):
+    """a sample of small `jones` cases evaluated by vm_compute inside coqc (jones_model and the generator sum kh_euler)
+    must equal what the extracted runner printed"""
+    import os
+    import re
+    out = os.path.join(ctx.work, "corr")
+    try:
+        cases = open(os.path.join(out, "cases.txt")).read().splitlines()
+        model = open(os.path.join(out, "model.txt")).read().splitlines()
+    except OSError:
+        return {}, []
+    ct = {"X": "X", "M": "Xm", "V": "V", "H": "H"}
+    sel = []
+    for c, m in zip(cases, model):
+        t = c.split()
+        if t[0] == "jones" and len(t) >= 2 and t[1].isdigit() and int(t[1]) <= 6 and len(t) == 2 + 5 * int(t[1]) \
+                and re.fullmatch(r"(0|P|(-?\d+:-?\d+)(,-?\d+:-?\d+)*)", m) and all(int(x) <= 60 for x in t[2:] if x.isdigit()):
+            sel.append((t, m))
+    step = max(1, len(sel) // limit)
+    ex = []
+    for t, m in sel[::step][:limit]:
+        n = int(t[1])
+        xs = ["mkX %s %s %s %s %s" % (ct[t[2 + 5 * k]], t[3 + 5 * k], t[4 + 5 * k], t[5 + 5 * k], t[6 + 5 * k]) for k in range(n)]
+        link = "[" + "; ".join(xs) + "]"
+        if m == "P":
+            rhs = "None"
+        elif m == "0":
+            rhs = "Some []"
+        else:
+            rhs = "Some [" + "; ".join("((%s)%%Z, (%s)%%Z)" % tuple(q.split(":")) for q in m.split(",")) + "]"
+        ex.append(("(jones_model %s, kh_euler %s)" % (link, link), "(%s, %s)" % (rhs, rhs)))
+    pre = ["From Coq Require Import List ZArith Arith.", "Require Import Yui.Model.Link Yui.Model.Jones.", "Import ListNotations."]
+    return C.kernel_examples(ctx, pre, ex)
+
+
 def run(ctx):
     ctx.equal = equal
     obl = C.coq_obligations(ctx.pid, ["Extract/ExtractC04.vo"])
@@ -48,6 +83,12 @@ def run(ctx):
     if ctx.thorough:
         extra.update(C.coqchk(ctx.pid))
     corr = C.correspondence(ctx, "c04", nontrivial)
+    if corr.get("ok"):
+        info, probs = kernel_crosscheck(ctx)
+        extra.update(info)
+        if probs:
+            obl["problems"] = obl.get("problems", []) + probs
+            obl["ok"] = False
     return C.finish(ctx, "proof", obl, corr, RULE, extra_cov=extra, assumptions=ASSUME)
 
 
